@@ -25,6 +25,7 @@ Roles == {"req", "resp", "cookie", "listener", "export"}
 PlaceholderTypedAsCookie == FALSE
 UidChecked == TRUE
 AdWhole == TRUE
+Hardened == TRUE
 StopAtAuth == TRUE
 CtLenExact == TRUE
 LenChoices(x) == {}
